@@ -28,7 +28,11 @@ class MetaHeader:
 		json_begin = header_begin + len(MetaHeader.Tag) + 1
 		line_break = content.find('\n', json_begin)
 		json_end = content.rfind('}', json_begin, line_break) + 1
-		return cls.from_json(content[json_begin:json_end])
+		try:
+			return cls.from_json(content[json_begin:json_end])
+		except (ValueError, KeyError, TypeError):
+			# XXX 破損したメタヘッダー(途中で切れたファイル等)は、メタヘッダーが存在しないものとして扱う
+			return None
 
 	@classmethod
 	def from_json(cls, json_str: str) -> Self:
